@@ -1,3 +1,4 @@
+import re
 """Per-property check definitions: which builds, engines and workloads decide each property,
 how coverage is summarised into the evidence file, and the floors below which a run is inconclusive."""
 
@@ -335,7 +336,43 @@ def cov_C05(ctx, agg):
             "cpu_levels_simulated": sorted(agg.sets.get("cpu_levels", [])), "tmp_state_resume_points": dict(sorted(agg.cnts.get("tmp_state_resume_points", {}).items()))}
 
 
+def run_C16(ctx):
+    from . import disp
+    disp.run(ctx)
+
+
+def cov_C16(ctx, agg):
+    d = getattr(ctx, "disp", {})
+    c = {"rule": "dependency-closed assignments of the CPUID/XCR0 bits the resolvers examine: SSE level {none, SSE3, SSE4.1, SSE4.2} x PCLMULQDQ x Avoton model x OSXSAVE/XCR0 {off, x87, SSE, AVX, AVX-512} x AVX x AVX2 x AVX512F with subsets of DQ/CD/BW/VL x subsets of GFNI/VAES/VPCLMULQDQ x {none, all, each-one-missing} of VBMI2/VNNI/BITALG/VPOPCNTDQ (quick: a covering subset; thorough: the whole closed space); every configuration is distinct by construction and non-trivial (42 real resolver executions each)",
+         "explanation": "each resolver's unmodified machine code runs under the x86 trap flag with CPUID/XGETBV emulated from the simulated register file; for every distinct slot assignment a battery over all public APIs runs under the same single-step tracer, every executed instruction inside library code is classified from the disassembly of the same binary and must be available in every configuration that produced that assignment; deterministic battery results must be identical across assignments and compression output must decode by the independent reference",
+         "exhaustive": bool(ctx.thorough)}
+    c.update({k: v for k, v in d.items()})
+    c["resolver_executions"] = int(agg.stats.get("resolver_executions", 0)); c["resolver_single_steps"] = int(agg.stats.get("resolver_single_steps", 0))
+    c["cpuid_emulated"] = int(agg.stats.get("cpuid_emulated", 0)); c["xgetbv_emulated"] = int(agg.stats.get("xgetbv_emulated", 0))
+    c["evaluations"] = int(d.get("configs", 0)); c["distinct_nontrivial"] = int(d.get("configs", 0))
+    return c
+
+
+def floor_C16(ctx, agg):
+    d = getattr(ctx, "disp", {})
+    miss = []
+    if d.get("configs", 0) < 300:
+        miss.append("only %d configurations" % d.get("configs", 0))
+    if d.get("traced_assignments", 0) < d.get("distinct_slot_assignments", 0):
+        miss.append("not every slot assignment was traced")
+    codec = re.compile(r"^(isal_deflate|encode_deflate|gen_icf|set_long|decode_huffman|isal_update_hist|icf_body|isal_inflate|adler32|isal_adler|crc32_gzip)")
+    frac = {s: f for s, f in d.get("executed_fraction_per_selected_implementation", {}).items() if ctx.thorough or not codec.match(s)}
+    low = {s: f for s, f in frac.items() if f < 0.4}
+    if frac and len(low) > len(frac) * 0.15:
+        miss.append("battery executed < 40%% of the instructions of %d of %d selected implementations: %s" % (len(low), len(frac), sorted(low.items())[:20]))
+    return miss
+
+
 PROPS = {
+    "C16": dict(run=run_C16, level="exploration", coverage=cov_C16, floors=floor_C16,
+                assumptions=["extensions the resolvers do not test but kernels use are tied to the generation that always ships them: SSSE3 with SSE4.1, POPCNT with SSE4.2, BMI1/BMI2/LZCNT/MOVBE with AVX2",
+                             "tzcnt is treated as baseline (executes as bsf with the same result for non-zero inputs)", "any EVEX-encoded instruction requires the full AVX-512 F/DQ/CD/BW/VL set and OS-enabled ZMM state",
+                             "the host CPU supports every simulated configuration, so selected code can actually be executed and traced"]),
     "C05": dict(run=run_C05, level="exploration", coverage=cov_C05,
                 floors=lambda ctx, agg: ([] if len(agg.cnts.get("calls", {})) >= 150 else ["only %d kernel symbols called" % len(agg.cnts.get("calls", {}))]) + ([] if agg.stats.get("library_calls", 0) >= 100000 else ["codec calls %d" % agg.stats.get("library_calls", 0)]),
                 assumptions=["declared ranges follow the headers: gf tables 32*k*rows, documented alignment and length multiples for RAID and gf_vect_mul, contexts/level_buf/tables at malloc-grade alignment",
